@@ -104,6 +104,13 @@ UNITS = [
      'static long long *gr_pnsc(void) { static long long t[10]; for (int i = 0; i < 10; i++) t[i] = DFKgetPNSC(gr_nt_codes[i], DF_MT); return t; }\n',
      ["DFNTF_HDFDEFAULT", "DFNTF_PC", "DFNTC_BYTE", "DFNT_NONE"],
      [("NT_CODES", "gr_nt_codes", "10"), ("NT_PNSC", "gr_pnsc()", "10")]),
+    ("DDTie", '#include "hdf_priv.h"\n#include "%s/hfile.c"\n' % HS,
+     ["DFTAG_FREE", ("DEFAULT_CACHE", "default_cache"), ("SIZEOF_NDDS_FIELD", "NDDS_SZ"),
+      # shape of the tag macros, checked on all 65536 uint16 values (the Lean model uses the arithmetic form)
+      ("BASETAG_SHAPE_OK", "({int ok=1; for(unsigned t=0;t<65536;t++){unsigned e=(t>=16384&&t<32768)?t-16384:t; if((unsigned)(uint16)BASETAG(t)!=e) ok=0;} ok;})"),
+      ("SPECIALTAG_SHAPE_OK", "({int ok=1; for(unsigned t=0;t<65536;t++){unsigned e=(t>=16384&&t<32768)?1:0; if((unsigned)(SPECIALTAG(t)?1:0)!=e) ok=0;} ok;})"),
+      ("MKSPECIALTAG_SHAPE_OK", "({int ok=1; for(unsigned t=0;t<65536;t++){unsigned e=(t<16384)?t+16384:(t<32768?t:DFTAG_NULL); if((unsigned)(uint16)MKSPECIALTAG(t)!=e) ok=0;} ok;})"),
+      ("UINT16_FAIL", "(uint16)FAIL"), ("SIZEOF_DD_T", "sizeof(dd_t)")], []),
     ("Bitvect", '#include "hdf_priv.h"\n#include "%s/bitvect.c"\n' % HS,
      ["BV_DEFAULT_BITS", "BV_CHUNK_SIZE", "BV_BASE_BITS"],
      [("bv_first_zero", "bv_first_zero", "256"), ("bv_bit_value", "bv_bit_value", "8"), ("bv_bit_mask", "bv_bit_mask", "9")]),
@@ -343,7 +350,7 @@ def main():
             open(p, "w").write(txt)
         digest[fn] = hashlib.sha256(txt.encode()).hexdigest()[:16]
     for rel in ["hdf/src/hfile_priv.h", "hdf/src/hdf.h", "hdf/src/htags.h", "hdf/src/hlimits.h", "hdf/src/hntdefs.h", "hdf/src/crle.c",
-                "hdf/src/crle_priv.h", "hdf/src/atom.c", "hdf/src/bitvect.c", "hdf/src/bitvect_priv.h", "hdf/src/vg_priv.h", "hdf/src/hcomp.h", "hdf/src/mfan_priv.h", "hdf/src/mfan.c", "hdf/src/vgp.c", "hdf/src/vg.c",
+                "hdf/src/crle_priv.h", "hdf/src/atom.c", "hdf/src/bitvect.c", "hdf/src/bitvect_priv.h", "hdf/src/vg_priv.h", "hdf/src/hcomp.h", "hdf/src/hfile.c", "hdf/src/hfiledd.c", "hdf/src/mfan_priv.h", "hdf/src/mfan.c", "hdf/src/vgp.c", "hdf/src/vg.c",
                 "hdf/src/mcache.c", "hdf/src/mcache_priv.h", "hdf/src/mfgr.c", "hdf/src/mfgr.h", "hdf/src/hbitio.c", "hdf/src/hbitio_priv.h", "hdf/src/cnbit.c", "hdf/src/cnbit_priv.h", "hdf/src/cskphuff.c", "hdf/src/cskphuff_priv.h", "hdf/src/dfkswap.c", "hdf/src/dfknat.c", "hdf/src/dfconv.c",
                 "hdf/src/mfgr_priv.h", "hdf/src/vattr.c", "hdf/src/mfgr.c", "mfhdf/src/mfsd.c", "mfhdf/src/attr.c", "mfhdf/src/cdf.c"]:
         p = os.path.join(repo, rel)
